@@ -28,7 +28,8 @@ SAFE_ASSERTS = {
     ("mos_core::io::binary_writer::BinaryWriter::merge_segments", "Overflow(Sub)"):
         (2, "`size - data.len()` only in the Ordering::Less arm (size > len)"),
     ("mos_core::io::listing::to_listing", "Overflow(Sub)"):
-        (2, "offsets of source-map entries inside a segment range; guarded by the enclosing range test"),
+        (3, "`offset.pc.end - offset.pc.start` of a source-map entry (end = start + len by construction) and `stored_at - range.start` under the enclosing "
+            "`range.start <= stored_at` test"),
     ("mos_core::io::listing::to_listing", "Overflow(Add)"):
         (3, "addresses ≤ $10000 plus lengths ≤ $10000"),
     ("mos_core::io::listing::to_listing", "BoundsCheck"):
